@@ -81,6 +81,14 @@ func (f *failoverStatus) report(ctx context.Context, witness string) *status.Sta
 	return nil
 }
 
+// forget removes the given witness, e.g. because it is no longer eligible to
+// report the leader.
+func (f *failoverStatus) forget(witness string) {
+	f.mu.Lock()
+	delete(f.witnesses, witness)
+	f.mu.Unlock()
+}
+
 // cancel stops the expiration timer, if there is one.
 func (f *failoverStatus) cancel() {
 	f.mu.Lock()
